@@ -162,6 +162,11 @@ SHAPES = [
     (D + 'record:DnsRecordTxt', 'many-strings', lambda n: b'\x01a' * n),
     (D + 'record:DnsRecordTxt', 'full-strings', lambda n: (b'\xff' + b'a' * 255) * max(1, n // 32)),
     (D + 'record:DnsRecordMx', 'many-labels', lambda n: b'\x00\x0a' + b'\x03abc' * n + b'\x00'),
+    # RFC 3110 three-octet exponent length / RFC 2536 T octet announcing the maximum with little key data behind it
+    # ("little" is meant: a handful of octets whatever n, so that the announced amount is all that could drive work)
+    (D + 'record:DnsRecordDnskey', 'rsa-declared-exponent-max',
+     lambda n: b'\x01\x01\x03\x08\x00\xff\xff' + b'\xaa' * (8 + n % 4)),
+    (D + 'record:DnsRecordDnskey', 'dsa-declared-t-max', lambda n: b'\x01\x01\x03\x03\xff' + b'\xaa' * (28 + n % 4)),
     (D + 'record:DnsRecordDnskey', 'huge-rsa', lambda n: b'\x01\x01\x03\x08\x03\x01\x00\x01' + b'\xaa' * (n * 8)),
     # --- DNS TXT policies
     (D + 'txt:DnsRecordTxtValueSpf', 'many-mechanisms', lambda n: b'v=spf1 ' + b'a ' * n + b'-all'),
@@ -409,8 +414,14 @@ def _declared_job(arg):
         base = [b for b in base if lib.call(cls.parse_immutable, b).ok]
         if len(base) > seeds_per_class:
             # the longest ones carry the most fields; keep the shortest too
-            base = sorted(base, key=len)
-            base = [base[0]] + base[-(seeds_per_class - 1):] if seeds_per_class > 1 else base[-1:]
+            base = sorted(base, key=lambda b: (len(b), b))
+            if seeds_per_class > 1:
+                # the shortest, the longest (most fields) and evenly spaced ones between them (other variants of the
+                # class: another key type, another length form)
+                step = (len(base) - 1) / float(seeds_per_class - 1)
+                base = [base[int(round(k * step))] for k in range(seeds_per_class)]
+            else:
+                base = base[-1:]
         seen = set()
         for seed in base:
             for pos, width in declared_candidates(cls, seed):
@@ -502,7 +513,7 @@ def run(ctx):
     jobs = [('shape', index, 24, base_n) for index in range(24)]
     jobs += [('generic', index, shards, base_n // 2, per_class, fuzz_per_class, ctx.derive_seed('generic', index), budget_s)
              for index in range(shards)]
-    jobs += [('declared', index, shards, 3 if ctx.quick else 40, budget_s) for index in range(shards)]
+    jobs += [('declared', index, shards, 5 if ctx.quick else 40, budget_s) for index in range(shards)]
     stats = pool.run_shards(_job, jobs)
     stats.extra['hand_written_shapes'] = len(SHAPES)
     stats.extra['bound'] = 'steps <= %d + %d * len; marginal steps/byte(4n..8n) <= 1.5 * marginal(n..2n) + 30; depth <= %d' % (STEPS_BASE, STEPS_PER_BYTE, MAX_DEPTH)
